@@ -37,7 +37,7 @@ def run(rep, tier, seed):
     rep.cov['real_code_oracle'] = st
     rep.cov.update(evaluations=st['evals'], distinct_nontrivial=st['evals'],
                    rule="random smooth Stratonovich SDE x 4 noise types x sizes x batch, ts = whole multiples of dt (dyadic dt 70%, else 0.1 / "
-                        "0.05 / 0.3), random loss weights on every output time: gradients w.r.t. y0 and every parameter from "
+                        "0.05 / 0.3), loss weights dense / on a subset of the output times / cancelling exactly at interior times: gradients w.r.t. y0 and every parameter from "
                         "sdeint_adjoint(reversible_heun, adjoint_reversible_heun) vs backprop through sdeint(reversible_heun); relative "
                         "1e-9 (1e-8 for non-dyadic dt); a larger mismatch together with a sliver step in the backward query log is an "
                         "instance of known finding F9")
@@ -51,6 +51,6 @@ def replay(path):
     f = d.get('failing_input')
     print(json.dumps(f or d['broken'], indent=1, default=str)[:3000])
     if f and f.get('kind') == 'c10':
-        cfg = {k: f[k] for k in ('noise', 'd', 'm', 'batch', 'seed', 'dt', 'ks', 't0')}
+        cfg = {k: f[k] for k in ('noise', 'd', 'm', 'batch', 'seed', 'dt', 'ks', 't0', 'weights') if k in f}
         print('now (relative difference, sliver steps):', osde.c10_case(**cfg))
     return 1
